@@ -13,7 +13,7 @@ for prop, orc in poalib.ORACLES.items():
         va = orc(hi, o, a); vm = orc(hi, o, m)
         for v in va:
             trig = poalib.history_trigs(m, v.height)
-            same = any(w.height == v.height and w.kind == v.kind for w in vm)
+            same = any(w.height == v.height and w.kind == v.kind and w.detail == v.detail for w in vm)
             key = (prop, v.kind, tuple(sorted(trig - {'D8'})) if prop != 'C05' else tuple(sorted(trig)), 'model-too' if same else 'IMPL-ONLY')
             tab[key] += 1; ex.setdefault(key, (hi, v.height, v.detail))
 for k, c in sorted(tab.items()):
